@@ -17,5 +17,5 @@ cd "$W/verif"
 sed -i "s#path = \"/repo\"#path = \"$W/repo\"#" harness/Cargo.toml
 sed -i "s#^REPO = \"/repo\"#REPO = \"$W/repo\"#" check
 sed -i "s#\"/repo\"#\"$W/repo\"#g" tools/propconf.py
-sed -i "s#gen_codepoints.py /repo#gen_codepoints.py $W/repo#" setup.sh
+sed -i "s# /repo # $W/repo #g" setup.sh
 echo "$W"
